@@ -546,6 +546,45 @@ theorem locateLoop_bound (H : Bytes → Bytes) (d : Bytes) (fuel w : Nat) (s : M
       · cases h
       · exact ih _ h
 
+/-- fuel sufficiency: with more fuel than `len - window` the loop ends because the window covers the
+    file, never because the fuel ran out — `none` then means the whole-file scan found nothing -/
+theorem locateLoop_none (H : Bytes → Bytes) (d : Bytes) (fuel w : Nat) (hw1 : 1 ≤ w) (hw2 : w ≤ d.length)
+    (hf : d.length - w < fuel) (h : locateLoop H d fuel w = none) : Mv.Footer.findLast H d = none := by
+  induction fuel generalizing w with
+  | zero => omega
+  | succ fuel ih =>
+    unfold locateLoop at h
+    simp only at h
+    split at h
+    · cases h
+    · rename_i hnone
+      split at h
+      · rename_i hwl
+        rw [hwl] at hnone
+        simpa using hnone
+      · rename_i hwl
+        exact ih (min (w * 2) d.length) (by omega) (by omega) (by omega) h
+
+/-- `locate_footer_window` answers `None` only when the file holds no valid footer at all -/
+theorem locate_complete (H : Bytes → Bytes) (d : Bytes) (h : locateFooterWindow H d = none) :
+    ∀ q, ¬ Mv.Footer.ValidAt H d q := by
+  unfold locateFooterWindow at h
+  split at h
+  · rename_i he
+    intro q hv
+    have := hv.1
+    have hd : d = [] := by simpa using he
+    subst hd
+    simp [Mv.Footer.FOOTER_SIZE_eq] at this
+  · rename_i he
+    have hpos : 0 < d.length := by
+      cases d with
+      | nil => simp at he
+      | cons _ _ => simp
+    have hmax : 0 < MAX_SEARCH_SIZE := by decide
+    exact Mv.Footer.C31_complete H d
+      (locateLoop_none H d _ _ (by omega) (by omega) (by omega) h)
+
 theorem locate_bound (H : Bytes → Bytes) (d : Bytes) (s : Mv.Footer.FooterSlice) (adj : Nat)
     (h : locateFooterWindow H d = some (s, adj)) : s.footerOffset + adj + Mv.Footer.FOOTER_SIZE ≤ d.length := by
   unfold locateFooterWindow at h
